@@ -178,7 +178,7 @@ class _FailingSection:
 
 # ----------------------------------------------------------------------------- one scenario
 def _ext(fmt):
-    return '.p8.png' if fmt == 'png' else '.p8'
+    return {'png': '.p8.png', 'p8': '.p8', 'rom': '.rom', 'txt': '.txt'}[fmt]
 
 
 class _Run:
@@ -195,6 +195,10 @@ class _Run:
             self.dest = self.inp if sc['fmt'] == 'p8' else os.path.join(sb, 'in_fmt' + self.ext)
         elif via in ('build-own', 'build-self'):
             self.dest = self.inp
+        elif via == 'many':
+            # luafmt [--overwrite] in1.p8 in2.p8.png in3.p8 [bad.p8]: several carts written by one command
+            self.many = [os.path.join(sb, n) for n in sc['inputs']]
+            self.dest = None
         else:
             self.dest = os.path.join(sb, 'in_fmt' + self.ext)
         self.src = os.path.join(sb, 'src.p8')
@@ -209,6 +213,16 @@ class _Run:
         t = lambda p: os.path.join(self.tpl, os.path.basename(p))  # noqa
         seed = sc.get('seed', 1)
         fk = sc['fault']['kind']
+        if sc['via'] == 'many':
+            for i, pth in enumerate(self.many):
+                if os.path.basename(pth).startswith('bad'):
+                    fsx.write_file(t(pth), b'pico-8 cartridge // http://www.pico-8.com\nversion 33\n__lua__\nx = = 1 )\n__gfx__\n')
+                else:
+                    _write_cart(t(pth), _mk_game(seed + 10 * i, 'small', label=pth.endswith('.p8')))
+                    o = self.many_out(pth)
+                    if o != pth and sc['dest_exists']:
+                        _write_cart(t(o), _mk_game(seed + 10 * i + 1, 'small', label=o.endswith('.p8')))
+            return
         if sc['via'] != 'api':
             if fk == 'input-bad':
                 # an input cart whose Lua does not parse: process_game_files reports it and writes nothing
@@ -225,6 +239,13 @@ class _Run:
         if fk == 'label-unreadable' and sc['fault']['how'] == 'explicit':
             self.label_file = os.path.join(self.sb, 'label.png')
             fsx.write_file(t(self.label_file), b'not a png at all')
+
+    def many_out(self, pth):
+        if self.sc.get('overwrite') and pth.endswith('.p8'):
+            return pth
+        if pth.endswith('.p8.png'):
+            return pth[:-len('.p8.png')] + '_fmt.p8.png'
+        return pth[:-len('.p8')] + '_fmt.p8'
 
     def _game(self, version=None):
         sc = self.sc
@@ -289,6 +310,8 @@ class _Run:
             return tool.main(['build', '--gfx', self.src, self.inp])
         if via == 'build-self':
             return tool.main(['build', '--lua', self.inp, '--sfx', self.src, self.inp])
+        if via == 'many':
+            return tool.main(['luafmt'] + (['--overwrite'] if sc.get('overwrite') else []) + self.many)
         raise ValueError(via)
 
     def once(self, fail_at):
@@ -296,7 +319,9 @@ class _Run:
         from pico8.game.formatter.p8 import P8Formatter
         from pico8.game.formatter.p8png import P8PNGFormatter
         self.prepare()
-        before = fsx.read_file(self.dest)
+        dests = [self.dest] if self.dest else [self.many_out(p_) for p_ in self.many]
+        before_all = {d: fsx.read_file(d) for d in dests}
+        before = before_all[dests[0]]
         listing = sorted(os.listdir(self.sb))
         rec = fsx.TraceRecorder(root=self.sb, fail_at=fail_at)
         saved = {}
@@ -324,8 +349,10 @@ class _Run:
             finally:
                 for cls, cm in saved.items():
                     cls.to_file = cm
-        after = fsx.read_file(self.dest)
+        after = fsx.read_file(dests[0])
         return {'k': fail_at, 'trace': rec.events, 'raised': raised, 'fired': rec.fault_fired,
+                'same_all': {d: before_all[d] == fsx.read_file(d) for d in dests},
+                'existed_all': {d: before_all[d] is not None for d in dests},
                 'same': before == after, 'existed': before is not None,
                 'listing_same': sorted(os.listdir(self.sb)) == listing,
                 'new_files': sorted(set(os.listdir(self.sb)) - set(listing))}
@@ -367,6 +394,31 @@ def _temp_chunks(events):
     return [e[2] for e in events if e[0] == 'w' and e[1] == temps[0]]
 
 
+def _segment_chunks(events):
+    """temp-write lengths per cart write (one segment per OpenTemp)"""
+    segs = []
+    for e in events:
+        if e[0] == 'T':
+            segs.append([])
+        elif e[0] == 'w' and segs and e[1] == 1:
+            segs[-1].append(e[2])
+    return segs
+
+
+def _split_segments(trace_str):
+    """the recorded trace cut before every OpenTemp (one piece per cart write; the first piece may hold only reads)"""
+    ev = trace_str.split(',') if trace_str != '~' else []
+    pieces, cur = [], []
+    for e in ev:
+        if e.startswith('T') and cur:
+            pieces.append(cur)
+            cur = []
+        cur.append(e)
+    if cur:
+        pieces.append(cur)
+    return pieces
+
+
 def _ks(spec, n):
     """fault indices for a run with n temp writes; index n = the fault never fires (unfaulted run)"""
     if spec == 'all':
@@ -389,12 +441,27 @@ def run_impl(case):
         fk = sc['fault']['kind']
         ref = run.once(None)
         obs = {'dest': run.dest, 'inp': run.inp, 'src': run.src, 'label_file': run.label_file,
+               'many': getattr(run, 'many', None),
+               'many_outs': [run.many_out(p_) for p_ in run.many] if getattr(run, 'many', None) else None,
+               'ref_segments': _segment_chunks(ref['trace']),
                'ref_chunks': _temp_chunks(ref['trace']), 'ref_raised': ref['raised'], 'runs': []}
         ref['trace'] = _trace_str(ref['trace'])
         obs['runs'].append(ref)
         if fk == 'inject':
             n = len(obs['ref_chunks'])
-            for k in _ks(sc['fault']['ks'], n):
+            spec = sc['fault']['ks']
+            if spec == 'segments':
+                # around the first / last write of every cart of the command, plus the middle of each
+                ks, b = set(), 0
+                for seg in obs['ref_segments']:
+                    for d in (0, 1, 2, len(seg) // 2, len(seg) - 2, len(seg) - 1):
+                        if 0 <= b + d < n:
+                            ks.add(b + d)
+                    b += len(seg)
+                klist = sorted(ks)
+            else:
+                klist = _ks(spec, n)
+            for k in klist:
                 r = run.once(k)
                 r['chunks_seen'] = _temp_chunks(r['trace'])
                 r['trace'] = _trace_str(r['trace'])
@@ -423,6 +490,17 @@ def _model_req(case, obs, r):
     else:
         chunks, fail = obs['ref_chunks'], (str(r['k']) if r['fired'] else '~')
     ex = '1' if r['existed'] else '0'
+    if via == 'many':
+        segs = list(obs['ref_segments'])
+        ents, j = [], 0
+        for pth, outp in zip(obs['many'], obs['many_outs']):
+            bad = os.path.basename(pth).startswith('bad')
+            ch = []
+            if not bad:
+                ch = segs[j] if j < len(segs) else []
+                j += 1
+            ents.append('%s/~/%d/%d/%s' % (fsx.hx(pth), 0 if bad else 1, 1 if r['existed_all'][outp] else 0, _ints(ch)))
+        return 'many %d %s %s' % (1 if case.get('overwrite') else 0, '|'.join(ents), fail)
     if via == 'api':
         lbl = fsx.hx(obs['label_file']) if obs['label_file'] else '~'
         return 'tofile %s %s %s %s %s' % (fsx.hx(obs['dest']), ex, lbl, _ints(chunks), fail)
@@ -448,6 +526,9 @@ def compare(case, obs, answers):
     via = case['via']
     for r, a in zip(obs['runs'], answers):
         want = a
+        if via == 'many' and r['raised'] is None and r['k'] is None:
+            # later carts must be untouched when an earlier one failed is covered by the monitor; here: all written
+            pass
         if via in ('writep8', 'luamin', 'luafmt', 'luafmt-overwrite'):
             parts = a.split(' ')
             if parts[0] != fsx.hx(obs['dest']):
@@ -458,10 +539,12 @@ def compare(case, obs, answers):
         if r['k'] is not None and r['fired'] and r['raised'] != 'InjectedFault':
             return 'fault index %r: injected fault did not propagate (raised %r)' % (r['k'], r['raised'])
         if r['raised'] is not None and not r['listing_same']:
-            return 'fault index %r: failed run left other files behind: %r' % (r['k'], r['new_files'])
+            allowed = set(os.path.basename(o) for o in (obs.get('many_outs') or []))     # carts written before the failing one
+            if not set(r['new_files']) <= allowed:
+                return 'fault index %r: failed run left other files behind: %r' % (r['k'], r['new_files'])
     ref = obs['runs'][0]
     fk = case['fault']['kind']
-    if fk in ('writer-raises', 'no-reparse', 'section-raises', 'label-unreadable', 'version') and ref['raised'] is None:
+    if fk in ('writer-raises', 'no-reparse', 'section-raises', 'label-unreadable', 'version', 'no-encoder') and ref['raised'] is None:
         if not (fk == 'no-reparse' and case['fmt'] == 'png'):        # the .p8.png writer has no sanity re-parse
             return 'the failure source %s did not make the write fail' % fk
     if fk in ('inject', 'none') and ref['raised'] is not None:
@@ -476,11 +559,29 @@ def _short(t):
 def monitor_requests(case, obs):
     if obs.get('timeout'):
         return []
-    return ['holds %s %d %s' % (fsx.hx(obs['dest']), 1 if r['same'] else 0, r['trace']) for r in obs['runs']]
+    reqs = []
+    for r in obs['runs']:
+        # (the stronger predicate `quiet` - nothing at all modified while encoding - is a theorem about the model and
+        #  reaches the implementation through the trace equality of the correspondence; it is NOT a verdict criterion:
+        #  C11 only protects the destination)
+        if case['via'] == 'many':
+            # one cart write per OpenTemp, in the order of the carts that load
+            pieces = [p_ for p_ in _split_segments(r['trace']) if p_ and p_[0].startswith('T')]
+            outs = [o for pth, o in zip(obs['many'], obs['many_outs']) if not os.path.basename(pth).startswith('bad')]
+            for piece, o in zip(pieces, outs):
+                reqs.append('holds %s %d %s' % (fsx.hx(o), 1 if r['same_all'][o] else 0, ','.join(piece)))
+        else:
+            reqs.append('holds %s %d %s' % (fsx.hx(obs['dest']), 1 if r['same'] else 0, r['trace']))
+    return reqs
 
 
 def _bad_run(case, obs):
     """first run the monitor would reject (recomputed in Python only for the signature / description)"""
+    if case['via'] == 'many':
+        for r in obs.get('runs', []):
+            if r['raised'] is not None and not all(r['same_all'].values()) and ',E' not in r['trace']:
+                return r, False
+        return (obs.get('runs') or [None])[0], True
     for r in obs.get('runs', []):
         ev = r['trace'].split(',')
         done = 'E' in ev
@@ -507,7 +608,7 @@ def what(case, obs):
 
 
 def describe(case, obs):
-    d = {k: case[k] for k in ('via', 'fmt', 'dest_exists', 'size', 'fault') if k in case}
+    d = {k: case[k] for k in ('via', 'fmt', 'dest_exists', 'size', 'fault', 'overwrite', 'inputs') if k in case}
     d['writer'] = case.get('writer')
     if obs and 'runs' in obs:
         d['runs'] = len(obs['runs'])
@@ -590,6 +691,17 @@ def generate(tier, rng):
                     p8_all(via, True, size, seed)
                 if size == 'small' or not quick:
                     cases.append(_sc(via, 'png', True, size, {'kind': 'inject', 'ks': 'all'}, seed=seed))
+        # several carts in one command (process_game_files loops over its arguments)
+        for ow in (True, False):
+            for ex in (True, False):
+                for inputs in (['in1.p8', 'in2.p8.png', 'in3.p8'], ['in1.p8', 'bad.p8', 'in3.p8']):
+                    d = _sc('many', 'p8', ex, 'small', {'kind': 'inject', 'ks': ('segments' if quick else ['stride', 7])}, seed=seed)
+                    d['overwrite'], d['inputs'] = ow, inputs
+                    cases.append(d)
+        # formats without an encoder: .rom (ROMFormatter.to_file raises NotImplementedError), unrecognised extension
+        for fmt in ('rom', 'txt'):
+            for ex in (True, False):
+                cases.append(_sc('api', fmt, ex, 'small', {'kind': 'no-encoder'}, seed=seed))
         # internal failure sources (API)
         for fmt in ('p8', 'png'):
             for ex in (True, False):
@@ -626,6 +738,9 @@ def corpus_cases():
     yield _sc('api', 'p8', True, 'small', {'kind': 'no-reparse'})
     yield _sc('api', 'png', True, 'small', {'kind': 'version', 'v': 256})
     yield _sc('api', 'png', True, 'small', {'kind': 'label-unreadable', 'how': 'dest-garbage'})
+    d = _sc('many', 'p8', True, 'small', {'kind': 'inject', 'ks': ['range', 440, 460]})
+    d['overwrite'], d['inputs'] = True, ['in1.p8', 'in2.p8.png', 'in3.p8']
+    yield d
 
 
 class _Shim:
